@@ -7,7 +7,8 @@ Assumed contract (trusted; this is what the bounded C13 check exercises with kil
   pik.dump(obj, f)       json / dill: either the encoder rejects a value (never for the empty dict literal) -- it raises an exception that is not an OSError,
                          having written some prefix (an undecodable content) -- or it writes the text in two effects: an
                          undecodable prefix, then the complete encoding c with  Dec(c) = obj
-  closing a file         no further effect (what was written is with the operating system)
+  buffering              what was written reaches the file at the write at the earliest, at flush/close at the latest: both
+                         extremes are explored (a rename issued before the close moves a file that may still be empty)
   pik.load(f)            returns a fresh dict Dec(c) when the content c decodes, raises otherwise
   open(p, 'r'|'rb')      FileNotFoundError when p does not exist
   os.replace/os.rename   atomic: the target has the source's content and the source is gone, in ONE effect
@@ -58,10 +59,12 @@ class Fs(object):
 
 
 class FileObj(object):
+    """an open file.  Python buffers writes: what has been written reaches the file system at the write at the earliest and at
+    flush/close at the latest -- both extremes are explored (`lazy`: the pending contents are applied on flush/close)"""
     kind = 'file'
 
-    def __init__(self, path, mode):
-        self.path, self.mode = path, mode
+    def __init__(self, path, mode, lazy=False, pending=()):
+        self.path, self.mode, self.lazy, self.pending = path, mode, lazy, tuple(pending)
         self.cls = None
         self.attrs = {}
 
@@ -72,7 +75,13 @@ class FileObj(object):
         if name == '__enter__':
             return [(st, recv)]
         if name in ('__exit__', 'close', 'flush'):
-            return [(st, NONE)]
+            s = st
+            for (label, content) in self.pending:
+                fs = _fs(s)
+                s = _effect(s, label + '-at-close', Fs(fs.exists, z3.Store(fs.data, self.path, content)))
+            if self.pending:
+                s.put(recv, FileObj(self.path, self.mode, self.lazy, ()))
+            return [(s, NONE)]
         return None
 
 
@@ -171,8 +180,11 @@ class FsCase(object):
                     out.append((s, Exc('FileNotFoundError', origin='open for reading')))
             return out
         if mode.startswith('w'):
-            s = _effect(st, 'open-for-write', Fs(z3.Store(fs.exists, p, True), z3.Store(fs.data, p, EMPTY_FILE)))
-            return [(s, s.alloc(FileObj(p, mode)))]
+            out = []
+            for (s0, lazy) in I.branch(st, fresh('writes_buffered_until_close', BOOL), 'buffered', 'unbuffered'):
+                s = _effect(s0, 'open-for-write', Fs(z3.Store(fs.exists, p, True), z3.Store(fs.data, p, EMPTY_FILE)))
+                out.append((s, s.alloc(FileObj(p, mode, bool(lazy)))))
+            return out
         raise Unsupported('open mode %r' % mode)
 
     def _dictobj(self, st, v):
@@ -198,6 +210,21 @@ class FsCase(object):
         for (s, good) in ([(st, True)] if always else I.branch(st, fresh('encodes', BOOL), 'encodes', 'encoder-rejects')):
             fs = _fs(s)
             part = fresh('partial_text', Val)
+            c = fresh('text', Val)
+            if f.lazy:
+                # nothing reaches the file system before flush/close
+                s1 = s.fork()
+                s1.assume(z3.Not(IsEnc(part)))
+                if not good:
+                    s1.put(ca.pos[1], FileObj(f.path, f.mode, True, f.pending + (('write-part', part),)))
+                    e = Exc(None, origin='encoder rejects a value')
+                    s1.assume(z3.Not(ExcIsInst(e.term, EXC_IDS['OSError'])))
+                    out.append((s1, e))
+                    continue
+                s1.assume(IsEnc(c), DecDom(c) == m.dom, DecVal(c) == m.val, DecSize(c) == m.size)
+                s1.put(ca.pos[1], FileObj(f.path, f.mode, True, f.pending + (('write-part', part), ('write-all', c))))
+                out.append((s1, NONE))
+                continue
             s1 = _effect(s, 'write-part', Fs(fs.exists, z3.Store(fs.data, f.path, part)))
             s1.assume(z3.Not(IsEnc(part)))
             if not good:
@@ -205,7 +232,6 @@ class FsCase(object):
                 s1.assume(z3.Not(ExcIsInst(e.term, EXC_IDS['OSError'])))
                 out.append((s1, e))
                 continue
-            c = fresh('text', Val)
             s2 = _effect(s1, 'write-all', Fs(fs.exists, z3.Store(fs.data, f.path, c)))
             s2.assume(IsEnc(c), DecDom(c) == m.dom, DecVal(c) == m.val, DecSize(c) == m.size)
             out.append((s2, NONE))
